@@ -209,6 +209,11 @@ def r7_1(ctx, rc):
     ok = len(rets) == 1
     if ok:
         v = rets[0].value
+        rn = [x for x in ctx.E.cfgs.get(N).nodes
+              if x.kind == 'return' and x.ast is rets[0]]
+        if rn and v is not None:
+            # through single-assignment temporaries
+            v = ctx.H.subst(v, N, rn[0])
 
         def peel(e, name):
             if isinstance(e, ast.Call) and name in prog.resolve_call(e, N) \
